@@ -27,7 +27,7 @@ FNS = {
 }
 ARGS = [1, 2, 3]
 OVERRIDES = {1: "ov/k1", 2: "ov/k2", 3: "ovk3", 4: "ov/run#7"}          # (4: '#' is the separator of stored versioned keys)
-MKEYS = {1: "log", 2: "log.extra"}
+MKEYS = {1: "log", 2: "log.extra", 3: "logs"}       # (keys that are string prefixes of one another)
 
 
 PART0 = 1000          # tags >= PART0 are partitions (outside the Lean op language: such histories run against the dictionary only)
@@ -516,7 +516,7 @@ def has_partition(ops):
     return any(o[0] in ("memoize", "memoize_bad", "rseed") and (o[0] != "memoize" or (o[4] is not None and o[4] >= PART0)) for o in ops)
 
 
-def gen_ops(rng, length, fns=None, override_rate=0.3, nvals=40, part_rate=0.0, seed_rate=0.0):
+def gen_ops(rng, length, fns=None, override_rate=0.3, nvals=40, part_rate=0.0, seed_rate=0.0, meta_rate=0.0):
     fns = fns or list(FNS)
     ops = []
     used_vals = []
@@ -527,6 +527,14 @@ def gen_ops(rng, length, fns=None, override_rate=0.3, nvals=40, part_rate=0.0, s
     for _ in range(length):
         r = rng.random()
         fn, arg = key()
+        if meta_rate and rng.random() < meta_rate:
+            # custom metadata of a few calls, written and read back often (also across re-memoization)
+            fn, arg = fns[0], rng.choice(ARGS[:2])
+            if rng.random() < 0.55:
+                ops.append(["wmeta", fn, arg, rng.choice(list(MKEYS)), rng.randrange(1, 50)])
+            else:
+                ops.append(["rmeta", fn, arg, rng.choice(list(MKEYS))])
+            continue
         if r < 0.36:
             if used_vals and rng.random() < 0.35:
                 B = rng.choice(used_vals)           # same bytes again: dedup / sharing across functions
